@@ -37,6 +37,11 @@ def run(ctx):
     ctx.rule(R4, "disconnect ends in a down state, its guard is closed before the first suspension point, a down connection refuses sends and the read loop "
                  "re-checks the state before every decode")
     ctx.rule(R5, "the client and server entry points both install reader/writer, set NETWORK_CONN_ESTABLISHED and call on_connect; a live connection is never overwritten")
+    # E9 reads the identity check of _validate_integrity as ONE atom, the call of FIXSession.validate_comp_ids: when the comparison is
+    # spelled out some other way the classes 'CompIDs match / do not match' are not visible to it
+    _vi = repo.func("AsyncFIXConnection._validate_integrity")
+    if not any(isinstance(c, ast.Call) and unparse(c.func).endswith("validate_comp_ids") for c in walk_no_nested(_vi)):
+        raise AnalysisError("_validate_integrity no longer compares the CompIDs through FIXSession.validate_comp_ids: the identity atom of the session model is not visible")
     ctx.assumptions += ["E9 base mode: hooks may suspend, raise and send, but do not disconnect/reset from inside the callback",
                         "encode/persist are assumed not to raise in the integrity clause (a failing Logout send aborts disconnect: reported as a note, see DESIGN)"]
 
